@@ -352,7 +352,9 @@ func (n *normalizer) call(x *ast.CallExpr) {
 			return
 		}
 	}
-	n.expr(x.Fun)
+	if !n.helperBody(x) {
+		n.expr(x.Fun)
+	}
 	n.emit("(")
 	for i, a := range x.Args {
 		if i > 0 {
@@ -554,6 +556,55 @@ func (n *normalizer) stmt(s ast.Stmt) {
 	default:
 		n.emit(fmt.Sprintf("?%T;", s))
 	}
+}
+
+// helperDepth bounds the nesting of helper bodies rendered in place of helper names.
+var helperDepth = 0
+
+// helperBody: a call of an unexported package-level function of the repository is rendered with the normal form of the
+// callee's body in place of its name, so that two twins that delegate to differently named but equally behaving private
+// helpers (streamHasItems / setItemHasItems) still agree, and two that delegate to different helpers do not.
+func (n *normalizer) helperBody(x *ast.CallExpr) bool {
+	if PtrWrapperDecl == nil || helperDepth >= 2 {
+		return false
+	}
+	fun := x.Fun
+	for {
+		switch f := fun.(type) {
+		case *ast.IndexExpr:
+			fun = f.X
+			continue
+		case *ast.IndexListExpr:
+			fun = f.X
+			continue
+		case *ast.ParenExpr:
+			fun = f.X
+			continue
+		}
+		break
+	}
+	id, ok := fun.(*ast.Ident)
+	if !ok {
+		return false
+	}
+	fo, ok := n.info.ObjectOf(id).(*types.Func)
+	if !ok || fo.Exported() {
+		return false
+	}
+	if sig, okS := fo.Type().(*types.Signature); !okS || sig.Recv() != nil {
+		return false
+	}
+	fd, fi := PtrWrapperDecl(fo)
+	if fd == nil || fd.Body == nil {
+		return false
+	}
+	helperDepth++
+	body := NormalForm(fi, fd, n.Fresh)
+	helperDepth--
+	n.emit("helper{")
+	n.emit(body...)
+	n.emit("}")
+	return true
 }
 
 // PtrWrapperDecl gives the declaration (and its type information) of a function of the repository; set by the rule
